@@ -55,7 +55,7 @@ def readers(F):
     return out
 
 
-def seq_obligations(F, name, with_reader=True, min_sites=None):
+def seq_obligations(F, name, with_reader=True, min_sites=None, reader_prefix=False):
     """R-SEQ obligations for one format: writer == spec, reader == writer."""
     from ..rules_seq import Tracer, r_seq
     from ..extract import AnalysisBroken
@@ -72,5 +72,5 @@ def seq_obligations(F, name, with_reader=True, min_sites=None):
         nsites += tr.sites
     if min_sites is not None and nsites < min_sites:
         raise AnalysisBroken("R-SEQ %s: only %d I/O call sites traced (floor %d)" % (name, nsites, min_sites))
-    obs = r_seq(name, wt, rt, name, wf.loc(wf.body), rf.loc(rf.body) if rf else "", wf.qn, rf.qn if rf else "")
+    obs = r_seq(name, wt, rt, name, wf.loc(wf.body), rf.loc(rf.body) if rf else "", wf.qn, rf.qn if rf else "", reader_prefix=reader_prefix)
     return obs, nsites
